@@ -89,6 +89,18 @@ def single (v : VS) : Option Nat :=
 def handle (line : String) : String :=
   match tokens line with
   | ["pairs"] => ",".intercalate (allPairs.map (·.name))
+  | ["accfields"] =>
+    -- fields of value set structs that a decoder rebuilds by accumulation (derived state)
+    ",".intercalate (decodeCtors.flatMap fun c => c.literals.flatMap fun l =>
+      (l.filter (·.kind == 1)).map fun f => s!"{c.structName}.{f.name}")
+  | ["multifield"] =>
+    -- structs with more than one field: something besides the element collection is kept
+    ",".intercalate ((decodeCtors.filter (·.nFields > 1)).map fun c =>
+      s!"{c.structName}({",".intercalate c.fieldNames})")
+  | ["decoder", st] =>
+    match decodeCtors.find? (·.structName == st) with
+    | none => "unknown"
+    | some c => s!"{if c.ok then "ok" else "broken"} {c.nFields} {match c.via with | some v => v | none => s!"literal:{c.literals.length}"}"
   | ["names", pn] =>
     match findPair pn with
     | some p => ",".intercalate p.memNames
